@@ -38,6 +38,8 @@ fn check_debug(s: &dyn Subject, key0: &[u8], key: &[u8]) -> Result<(), (String, 
 
 /// Algorithm identity: Enc/Dec/combined of one algorithm may share a name.
 fn identity(name: &str) -> String {
+    // shadow builds (`Base@variant`) are the same algorithm as `Base`
+    let name = crate::subjects::base_name(name);
     let n = name.strip_suffix("Enc").or_else(|| name.strip_suffix("Dec")).unwrap_or(name);
     n.to_string()
 }
